@@ -95,6 +95,8 @@ def variants(rng, prog, thorough):
             # a parameter that also carries signature defaults cannot be bound inside only one scope:
             # the constructor demands consistent defaults across the nodes of one graph
             ib = [b for b in bnd if b not in dpar and rng.random() < 0.5]
+            # ... or at BOTH levels with different values: the outer binding wins, as a second bind() on the flat graph does
+            db = [b for b in bnd if b not in dpar and b not in ib and rng.random() < 0.5]
             used_outside = {p for n in prog["nodes"] if n["name"] not in S for p in n["inputs"]}
             sel = None
             hidden = []
@@ -110,7 +112,7 @@ def variants(rng, prog, thorough):
             if rout and rng.random() < 0.4:
                 gname = next(iter(rout))     # the wrapper is NAMED after the output it exposes through a rename (legal)
             try:
-                p2 = gen.nest(prog, S, name=gname, rename_in=rin, rename_out=rout, inner_bound=ib, pos=pos, selected=sel)
+                p2 = gen.nest(prog, S, name=gname, rename_in=rin, rename_out=rout, inner_bound=ib, pos=pos, selected=sel, double_bound=db)
             except Exception:  # noqa: BLE001
                 continue
             if rng.random() < 0.5:
@@ -146,7 +148,7 @@ def variants(rng, prog, thorough):
                         p2, sib = p3, "/sibling=" + "+".join(T)
                     except Exception:  # noqa: BLE001
                         pass
-            yield p2, hidden, f"S={'+'.join(S)}/rin={rin}/rout={rout}/ib={ib}/sel={sel}/depth{depth}{sib}/name={gname}"
+            yield p2, hidden, f"S={'+'.join(S)}/rin={rin}/rout={rout}/ib={ib}/db={db}/sel={sel}/depth{depth}{sib}/name={gname}"
 
 
 def make_pairs(tier, rng):
@@ -163,12 +165,19 @@ def make_pairs(tier, rng):
                 bases.append((prog, provided))
     n_rand = 500 if thorough else 110
     while n_rand > 0:
-        prog, _ = gen.random_flat(rng, n_nodes=(3, 6), cyclic=0.0, gate=0.0, multi_out=0.3, side_effect=0.0, defaults=0.3, bound=0.3)
+        prog, _ = gen.random_flat(rng, n_nodes=(3, 6), cyclic=0.0, gate=0.0, multi_out=0.3, side_effect=0.0, defaults=0.3, bound=0.3, fn_mix=True)
         used = {p for n in prog["nodes"] for p in n["inputs"]}
         outs = {o for n in prog["nodes"] for o in n["outputs"]}
         dpar = {p for n in prog["nodes"] for p in n["defaults"]}
         bnd = {b for b, _ in prog["bound"]}
-        prov = [[p, f"in.{p}"] for p in sorted(used - outs) if p not in bnd and (p not in dpar or rng.random() < 0.5)]
+        # some provided values are None (identity nodes pass it on: a legitimately None-valued output)
+        prov = [[p, "~none" if rng.random() < 0.2 else f"in.{p}"] for p in sorted(used - outs) if p not in bnd and (p not in dpar or rng.random() < 0.5)]
+        for dp in sorted(dpar):
+            if rng.random() < 0.3:
+                # the shared default is ONE object that compares by identity only (def f(p=OBJ), def g(p=OBJ))
+                for n in prog["nodes"]:
+                    if dp in n["defaults"]:
+                        n["dvals"] = n["dvals"] + [[dict(map(tuple, n["pmap"]))[dp], "~obj"]]
         bases.append((prog, prov))
         n_rand -= 1
     pairs = []
